@@ -124,6 +124,9 @@ def to_float(interp, x=0):
         raise_('TypeError', 'only length-1 arrays can be converted')
     if isinstance(x, InfV):
         return x
+    if type(x).__name__ == 'SStr':
+        from . import sstr
+        return sstr.to_float(x, interp.ops)
     if x is None:
         raise_('TypeError', 'float() argument must be a string or a number')
     if isinstance(x, (list, tuple, dict)):
@@ -2024,6 +2027,17 @@ class CounterV:
             return Builtin('copy', lambda: CounterV(interp, self))
         raise_('AttributeError', name)
 
+    def sym_equals(self, other, ops):
+        if isinstance(other, CounterV):
+            od = other.d
+        elif isinstance(other, dict):
+            od = other
+        else:
+            return False
+        keys = list(self.d.keys()) + [k for k in od if k not in self.d]
+        return ops.all_([ops.equals(self.d.get(k, 0), od.get(k, 0))
+                         for k in keys])
+
     def sym_iadd(self, other, interp):
         ops = interp.ops
         if not isinstance(other, CounterV):
@@ -2099,6 +2113,18 @@ class MatchV:
         raise_('AttributeError', name)
 
 
+class GroupV:
+    """match object whose whole-match text is known"""
+
+    def __init__(self, text):
+        self.text = text
+
+    def sym_getattr(self, name, interp):
+        if name == 'group':
+            return Builtin('group', lambda *a: self.text)
+        raise_('AttributeError', name)
+
+
 def _re_table(interp):
     import re as _re
 
@@ -2108,8 +2134,11 @@ def _re_table(interp):
     def wrap(fn, is_match=False):
         def f(it, pattern, *args, **kw):
             if not conc(pattern, *args):
-                if hasattr(it, 'strings'):
-                    return it.strings.regex(fn, pattern, args, kw)
+                from . import sstr
+                if fn == 'search' and pattern == '^\\d+\\.?\\d*' and \
+                        len(args) == 1:
+                    r = sstr.number_prefix(args[0], it)
+                    return None if r is None else GroupV(r)
                 raise Unsupported('re.%s on symbolic strings' % fn)
             try:
                 r = getattr(_re, fn)(pattern, *args, **kw)
